@@ -112,6 +112,63 @@ END
 """
 
 
+FIXED_DIRECTIVES = """DR DEFINITIONS AUTOMATIC TAGS ::= BEGIN
+
+Dims ::= SEQUENCE { w INTEGER (0..10000), h INTEGER (0..10000) }
+
+Item ::= SEQUENCE {
+    id INTEGER (0..65535),
+    --<ASN1C.RepresentAsPointer>--
+    dims Dims,
+    note IA5String OPTIONAL,
+    ...
+}
+
+Loc ::= CHOICE {
+    shelf INTEGER (1..500),
+    --<ASN1C.RepresentAsPointer>--
+    crate Dims
+}
+
+TelemetryPacketRecord ::= SEQUENCE OF Item
+
+END
+"""
+
+# a parameterized type instantiated in the file that is not the first one in some orders (the generated names of the
+# instances embed the source line of the instantiation)
+FIXED_PARAM = [("pa.asn1", """PA DEFINITIONS AUTOMATIC TAGS ::= BEGIN
+EXPORTS ALL;
+
+SeqNo ::= INTEGER (0..4294967295)
+
+Stamp ::= SEQUENCE { s INTEGER (0..4294967295), us INTEGER (0..999999) }
+
+Prio ::= ENUMERATED { low, normal, high, ... }
+
+END
+"""), ("pb.asn1", """PB DEFINITIONS AUTOMATIC TAGS ::= BEGIN
+IMPORTS SeqNo, Stamp, Prio FROM PA;
+
+Envelope { Payload } ::= SEQUENCE {
+    seq SeqNo,
+    sent Stamp,
+    prio Prio DEFAULT normal,
+    body Payload
+}
+
+TextBody ::= UTF8String (SIZE(0..200))
+
+TextMessage ::= Envelope { TextBody }
+
+Sample ::= SEQUENCE { value INTEGER (0..1023), unit IA5String (SIZE(1..8)) }
+
+SampleMessage ::= Envelope { Sample }
+
+END
+""")]
+
+
 def run(tier, seed):
     chk = core.Check("C12", tier, seed)
     quick = tier == "quick"
@@ -141,6 +198,9 @@ def run(tier, seed):
     for i in range(3 if quick else 15):
         sets.append(("gen-multi-%d" % i, gen_module_set(seed * 100 + 50 + i, rng.choice([2, 3, 4])), True))
     sets.append(("gen-values-0", [("fv.asn1", FIXED_VALUES)], True))
+    # asn1c-specific directives must survive printing; -pdu=<a long type name> goes into the example makefiles
+    sets.append(("gen-directives-0", [("dr.asn1", FIXED_DIRECTIVES)], True, ("-pdu=TelemetryPacketRecord",)))
+    sets.append(("gen-param-0", FIXED_PARAM, False))
     for i in range(2 if quick else 10):
         sets.append(("gen-clash-%d" % i, gen_clash_set(seed * 100 + 70 + i, rng.choice([2, 2, 3])), True, ("-fcompound-names",)))
     shipped = sorted(glob.glob(os.path.join(tc.repo, "tests/tests-asn1c-compiler/*-OK.asn1")))
@@ -158,6 +218,8 @@ def run(tier, seed):
     def one(item):
         label, files, generated = item[:3]
         xopts = list(item[3]) if len(item) > 3 else []
+        if not any(x.startswith("-pdu=") for x in xopts):
+            xopts = ["-pdu=all"] + xopts
         d = os.path.join(work, hashlib.sha1(label.encode()).hexdigest()[:10])
         os.makedirs(d, exist_ok=True)
         for n, t in files:
@@ -168,11 +230,14 @@ def run(tier, seed):
         # (1) determinism of full output
         runs = []
         variants = [(asan, {}, ()), (plain, {"MALLOC_PERTURB_": "85", "PADDING": "x" * 3000}, ("setarch", "x86_64", "-R")),
-                    (asan, {"MALLOC_PERTURB_": "170"}, ())]
+                    (asan, {"MALLOC_PERTURB_": "170"}, ()),
+                    # the uninstrumented binary a second time (ASan fills fresh and freed heap with fixed patterns, which hides
+                    # output that depends on uninitialised or stale heap bytes)
+                    (plain, {"PADDING": "y" * 11}, ())]
         for i, (tool, envx, prefix) in enumerate(variants):
             out = os.path.join(d, "run%d" % i, "o")
             os.makedirs(out)
-            rc, so, se = run_asn1c(tool, ["-S", skel, "-pdu=all", "-D", "o"] + xopts + ["../" + n for n in names],
+            rc, so, se = run_asn1c(tool, ["-S", skel, "-D", "o"] + xopts + ["../" + n for n in names],
                                    os.path.join(d, "run%d" % i), envx, prefix=prefix if shutil.which("setarch") else ())
             runs.append((rc, tree_digest(out, lambda r: r.endswith((".c", ".h", ".am", ".mk")) or "Makefile" in r), clean_err(se)))
         rec["runs"] = runs
@@ -185,7 +250,7 @@ def run(tier, seed):
             for i, pm in enumerate(perms):
                 out = os.path.join(d, "perm%d" % i, "o")
                 os.makedirs(out)
-                rc, so, se = run_asn1c(asan, ["-S", skel, "-pdu=all", "-D", "o"] + xopts + ["../" + n for n in pm],
+                rc, so, se = run_asn1c(asan, ["-S", skel, "-D", "o"] + xopts + ["../" + n for n in pm],
                                        os.path.join(d, "perm%d" % i))
                 skn = set(os.listdir(skel))
                 pres.append((pm, rc, tree_digest(out, lambda r: r.endswith((".c", ".h")) and r not in skn and
@@ -250,6 +315,8 @@ def run(tier, seed):
                     # run 1 uses the other build flavour: its argv[0] (echoed into the example makefiles) differs by construction
                     dg = {k: v for k, v in dg.items() if k.endswith((".c", ".h"))}
                     cmpbase = {k: v for k, v in base.items() if k.endswith((".c", ".h"))}
+                elif i == 3:
+                    cmpbase = rec["runs"][1][1]     # plain build against plain build: every file
                 else:
                     cmpbase = base
                 if dg != cmpbase:
